@@ -142,6 +142,7 @@ def _check(pid, P, tier, seed, bdir, ev):
     samples = []
     extraction = {}
     solver_ms = 0
+    pclauses = {}
     probs, suites_seen = scan_suite_overrides()
     cov['suite_overrides_scan'] = dict(problems=probs, defined={k: len(v) for k, v in suites_seen.items()})
     undecided.extend(probs)
@@ -203,6 +204,10 @@ def _check(pid, P, tier, seed, bdir, ev):
                     cur = 'unreadable: %s' % e
                 if cur != tlock['files'][rel]:
                     undecided.append('trusted file %s changed (not verified by any unit; the proof of %s assumes its behaviour)' % (rel, pid))
+        for ck, cc in meta.get('contracts', {}).items():
+            pn = [n for (kd, n) in cc.get('clauses', []) if kd == 'ensures' and n.startswith('p_')]
+            if pn:
+                pclauses[ck] = pn
         # which functions serve this property
         tags = lemma_tags(cfg)
         pids = set([pid] + list(P.get('include', [])))   # a property may rest on the functions/lemmas of others (e.g. C01 on key generation)
@@ -390,9 +395,29 @@ def _check(pid, P, tier, seed, bdir, ev):
     cov['explanation'] = P.get('level_text', '')
     # verdict
     new_viol = []
+    # Property-level vs exact clauses.  A function whose contract has clauses named `p_*` states the PROPERTY there (what users rely on:
+    # refusal / acceptance / the values the property fixes) and, in its other `ensures`, the exact result (error precedence, every field) that the
+    # theorems are proved from.  If only exact `ensures` of such a function fail while all its `p_*` clauses, invariants and internal
+    # obligations hold, the behaviour changed in a way the property does not fix (reordered guards, an additional refusal): the link
+    # between code and theorems is lost -> undecided (the concrete search is consulted), not a violation.
+    by_fn = {}
+    for x in failures_all:
+        if x.verdict and x.fn_key:
+            by_fn.setdefault(x.fn_key, []).append(x)
+    advisory = set()
+    for fk, xs in by_fn.items():
+        names = pclauses.get(fk)
+        if not names:
+            continue
+        if all(x.clause and x.clause[0] == fk and x.clause[1] == 'ensures' and not x.clause[2].startswith('p_') for x in xs):
+            advisory.add(fk)
     for x in failures_all:
         if not x.verdict:
             undecided.append('undecided obligation %s: %s' % (x.obligation, x.message))
+            continue
+        if x.fn_key in advisory:
+            undecided.append('exact-result clause %s fails while every property-level clause (%s) of the function holds: behaviour changed in a way the '
+                             'property does not fix' % (x.obligation, ', '.join(sorted(pclauses[x.fn_key]))))
             continue
         k = [kf for kf in known if kf['obligation'] == x.obligation]
         if k:
